@@ -553,12 +553,31 @@ pub fn run_flush(ctx: &Ctx) {
     let rates: Vec<u32> = if ctx.tier_thorough { STD_RATES.to_vec() } else { vec![8000, 22050, 48000] };
     let n_offsets = if ctx.tier_thorough { 50 } else { 7 };
     for &rate in &rates {
-        for kind in ["header3", "header2", "full3", "full2", "long_header3"] {
+        for kind in ["header3", "header2", "full3", "full2", "long_header3", "two_pending"] {
+            if kind == "two_pending" && rate > 22050 && !ctx.tier_thorough {
+                continue; // 140 s of audio per case
+            }
             let mut lg = gen_line(&mut rng, rate);
             lg.line.noise_rel = 0.0;
+            lg.line.baud_err = 0.0;
             let h = if kind == "long_header3" { gen_header(&mut rng, 31, 8) } else { gen_header_any(&mut rng) }.text().into_bytes();
             let mut a = Audio::new(lg.line.clone());
             a.silence(0.4, &mut rng);
+            if kind == "two_pending" {
+                // an earlier alert whose trailer never comes: its 135 s timer expires around the cut, so that
+                // a forced EndOfMessage AND the new header are both pending when the input ends
+                let h0 = gen_header(&mut rng, 1, 4).text().into_bytes();
+                for k in 0..3 {
+                    a.burst(16, &h0, &mut rng);
+                    if k < 2 {
+                        a.silence(1.0, &mut rng);
+                    }
+                }
+                // StartOfMessage of h0 comes ~1.4 s after here; the new header's third burst must end ~135 s after that
+                let dur_new = 3.0 * 8.0 * (16 + h.len()) as f64 / BAUD + 2.0 * lg.pause;
+                let wait = 135.0 + 1.4 - dur_new - 0.6 + rng.unit() * 1.2;
+                a.silence(wait, &mut rng);
+            }
             let nh = if kind == "header2" { 2 } else { 3 };
             for k in 0..nh {
                 a.burst(16, &h, &mut rng);
@@ -611,6 +630,23 @@ pub fn run_flush(ctx: &Ctx) {
                 let label = format!("sigflush.{}.rate{}.off{}", kind, rate, off);
                 let (op, imp) = link_op(&taps);
                 out.op(&op, &imp, true);
+                // reference: what continued silence would have delivered (one binding, no flush())
+                let mut rr = build(Cfg::Samedec, rate);
+                let zeros = std::iter::repeat(0.0f32).take(9 * rate as usize);
+                let reference: Vec<sameold::Message> = rr.iter_messages(a.samples[..cut].iter().copied().chain(zeros)).collect();
+                out.spec(&format!(
+                    "spec.sig c14ref - [{}] => {} | {} | {} || {}",
+                    label,
+                    msgs_str(&before),
+                    msgs_str(&flushed),
+                    if last_none && again { "none" } else { "NOT-NONE" },
+                    msgs_str(&reference)
+                ));
+                if kind == "two_pending" {
+                    out.count(&format!("two_pending:flushed:{}", flushed.len()));
+                    out.count(&format!("kind:{}", kind));
+                    continue;
+                }
                 out.spec(&format!(
                     "spec.sig c14 {},{} [{}] => {} | {} | {}",
                     hex(&h),
